@@ -29,6 +29,10 @@ const ORDER_TARGETS: &[(u32, &str, &str)] = &[
     (18, "crates/ripd/src/continuities.rs", "ContinuityStore::append_job_ended"),
     (19, "crates/ripd/src/continuities.rs", "ContinuityStore::append_run_ended"),
     (20, "crates/ripd/src/continuities.rs", "ContinuityStore::append_tool_side_effects"),
+    (21, "crates/ripd/src/continuities.rs", "ContinuityStore::branch"),
+    (22, "crates/ripd/src/continuities.rs", "ContinuityStore::handoff"),
+    (23, "crates/ripd/src/continuities.rs", "ContinuityStore::create_continuity"),
+    (24, "crates/ripd/src/continuities.rs", "ContinuityStore::ensure_default"),
     (30, "crates/rip-log/src/lib.rs", "EventLog::append"),
 ];
 
@@ -54,6 +58,7 @@ enum Eff {
     Subscribe,
     Snapshot,
     SeqLoad,
+    CreateThread,
     FsWrite,
     FsFlush,
 }
@@ -81,6 +86,7 @@ fn eff_lean(e: &Eff) -> String {
         Eff::Subscribe => ".subscribe".into(),
         Eff::Snapshot => ".snapshot".into(),
         Eff::SeqLoad => ".seqLoad".into(),
+        Eff::CreateThread => ".createThread".into(),
         Eff::FsWrite => ".fsWrite".into(),
         Eff::FsFlush => ".fsFlush".into(),
     }
@@ -128,6 +134,7 @@ impl<'ast> Visit<'ast> for Collect {
             "subscribe" => self.out.push(Eff::Subscribe),
             "events_snapshot" | "replay_events" => self.out.push(Eff::Snapshot),
             "load_next_seq_for" => self.out.push(Eff::SeqLoad),
+            "create_continuity" => self.out.push(Eff::CreateThread),
             "write_all" | "write" if recv == "file" || recv == "writer" || recv == "guard" => self.out.push(Eff::FsWrite),
             "flush" => self.out.push(Eff::FsFlush),
             _ => {}
@@ -236,10 +243,19 @@ fn stmt_expr_inner(e: &syn::Expr, out: &mut Vec<Eff>, scope_guards: &mut Vec<u32
     match e {
         syn::Expr::Block(b) => effects_of_block(&b.block, out),
         syn::Expr::If(i) => {
-            out.extend(effects_of_expr(&i.cond));
+            let cond = effects_of_expr(&i.cond);
+            out.extend(cond.iter().cloned());
             effects_of_block(&i.then_branch, out);
             if let Some((_, els)) = &i.else_branch {
                 stmt_expr(els, out, scope_guards);
+            }
+            // temporaries of the condition (e.g. a guard in `if let … = x.lock()…`) live to the end of the `if`
+            for e in cond.iter().rev() {
+                if let Eff::Lock(n) = e {
+                    if !already_unlocked(&cond, *n) {
+                        out.push(Eff::Unlock(*n));
+                    }
+                }
             }
         }
         syn::Expr::Match(m) => {
@@ -654,7 +670,7 @@ fn main() {
     // ---- emit Lean
     let mut lean = String::new();
     lean.push_str("/- GENERATED by ripx from /repo's current source. Do not edit. -/\nnamespace Rip.Gen\n\n");
-    lean.push_str("inductive Eff\n  | publish | record | lock (n : Nat) | unlock (n : Nat) | logAppend | cacheAppend | bump\n  | subscribe | snapshot | seqLoad | fsWrite | fsFlush\n  deriving Repr, DecidableEq\n\n");
+    lean.push_str("inductive Eff\n  | publish | record | lock (n : Nat) | unlock (n : Nat) | logAppend | cacheAppend | bump\n  | subscribe | snapshot | seqLoad | createThread | fsWrite | fsFlush\n  deriving Repr, DecidableEq\n\n");
     lean.push_str("/-- lock ids: 1 = recorded-frames buffer, 2 = task seq counter, 3 = continuity next_seq map, 4 = index, 5 = log file, 9 = other -/\n");
     lean.push_str("def effectOrders : List (Nat × List Eff) := [\n");
     for (k, (id, path, effs)) in orders.iter().enumerate() {
